@@ -40,8 +40,67 @@ def _closure_infallible(ctors, j, memo):
     return ok
 
 
+def localise(rng, ebp, ctors, handlers, mws, ehs, observers):
+    """move some constructors into the nested blueprint that holds all their users, so that the scope of the
+    *fallible component* (not of the route) decides which by-type error handler is visible"""
+    nests = [op for op in ebp if op[0] == "nest"]
+    if not nests:
+        return ebp
+
+    def inside(ops, acc):
+        for op in ops:
+            if op[0] in ("route", "mw"):
+                acc.add((op[0], op[1]))
+            elif op[0] == "nest":
+                inside(op[1], acc)
+        return acc
+    used_by_eh = {j for e in ehs for j, _ in e["ins"]} | {j for o in observers for j, _ in o["ins"]}
+    for nb in nests:
+        if rng.random() < 0.5:
+            continue
+        members = inside(nb[1], set())
+        local = set()
+        for c in reversed(ctors):
+            i = c["i"]
+            if i in used_by_eh or c["life"] == "singleton":
+                continue
+            users_c = [d["i"] for d in ctors if any(x[0] == i for x in d["ins"])]
+            users_h = [("route", h["i"]) for h in handlers if any(x[0] == i for x in h["ins"])]
+            users_m = [("mw", w["i"]) for w in mws if any(x[0] == i for x in w["ins"])]
+            if not (users_c or users_h or users_m):
+                continue
+            if all(u in local for u in users_c) and all(u in members for u in users_h + users_m) and rng.random() < 0.7:
+                local.add(i)
+        if local:
+            moved = [op for op in ebp if op[0] == "ctor" and op[1] in local]
+            ebp = [op for op in ebp if not (op[0] == "ctor" and op[1] in local)]
+            nb[1][:0] = moved
+    return ebp
+
+
+def corpus_minis():
+    """corpus/C06/*.jsonl: one application per line in the compact form `draw` produces"""
+    import glob
+    import json
+    import os
+    out = []
+    d = os.path.join(os.path.dirname(os.path.dirname(os.path.abspath(__file__))), "corpus", "C06")
+    for fn in sorted(glob.glob(os.path.join(d, "*.jsonl"))):
+        out += [json.loads(l) for l in open(fn) if l.strip()]
+    return out
+
+
 def make(rng, name):
-    U = name.upper()
+    idx = int(name[1:]) if name[1:].isdigit() else 10 ** 9
+    fixed = corpus_minis()
+    if idx < len(fixed):
+        # corpus first: hand-written / minimised applications, always part of the family
+        return build(name, fixed[idx])
+    return build(name, draw(rng))
+
+
+def draw(rng):
+    """the application in compact form (independent of the module name)"""
     n = rng.randrange(3, 8)
     types, ctors = [], []
     for i in range(n):
@@ -78,11 +137,12 @@ def make(rng, name):
         return out
 
     n_routes = rng.choice([1, 2, 2, 3])
-    handlers = [{"i": h, "method": rng.choice(["GET", "POST"]), "path": "/%s/r%d" % (name, h), "ins": comp_ins(3),
+    handlers = [{"i": h, "method": rng.choice(["GET", "POST"]), "ins": comp_ins(3),
                  "fallible": rng.random() < 0.5, "async": rng.random() < 0.5} for h in range(n_routes)]
     mws = [{"i": m, "kind": rng.choice(["wrap", "pre", "post"]), "ins": comp_ins(2), "fallible": rng.random() < 0.45}
            for m in range(rng.choice([0, 1, 2, 3, 4]))]
-    observers = [{"i": o, "ins": []} for o in range(rng.choice([0, 1, 1, 2, 2, 3]))]
+    observers = [{"i": o, "ins": [[j, "ref"] for j, _ in comp_ins(1, safe)] if rng.random() < 0.3 else []}
+                 for o in range(rng.choice([0, 1, 1, 2, 2, 3]))]
 
     # ---- error handlers ------------------------------------------------------------------------
     ehs = []
@@ -114,7 +174,10 @@ def make(rng, name):
             [["route", h["i"], direct.get(("h", h["i"]))] for h in handlers] + \
             [["obs", o["i"]] for o in observers] + [["eh", k] for k in typed] + [["eh", k] for k in fallbacks]
     rng.shuffle(items)
-    counter = [0]
+    for it in [x for x in items if x[0] == "obs"]:
+        if rng.random() < 0.5:
+            items.remove(it)
+            items.insert(rng.randrange(0, 1 + len(items) // 3), it)
 
     def nestify(us, depth):
         out, i = [], 0
@@ -129,6 +192,7 @@ def make(rng, name):
         return out
 
     ebp = root + nestify(items, 0)
+
     # the same error type may be handled by type at most once per blueprint: drop duplicates in one scope
     def dedup(ops):
         seen, out = set(), []
@@ -143,6 +207,26 @@ def make(rng, name):
             out.append(op)
         return out
     ebp = dedup(ebp)
+    ebp = localise(rng, ebp, ctors, handlers, mws, ehs, observers)
+    return {"types": types, "ctors": ctors, "handlers": handlers, "mws": mws, "observers": observers, "ehs": ehs, "bp": ebp}
+
+
+def build(name, mini):
+    """compact form -> gen_app spec (+ `err`, what the model and the oracle read)"""
+    import copy
+    mini = copy.deepcopy(mini)
+    U = name.upper()
+    types, ctors, handlers, mws = mini["types"], mini["ctors"], mini["handlers"], mini["mws"]
+    observers, ehs, ebp = mini["observers"], mini["ehs"], mini["bp"]
+    for c in ctors:
+        c.setdefault("out", c["i"])
+        c.setdefault("cloning", False)
+        c.setdefault("async", False)
+    for h in handlers:
+        h["path"] = "/%s/r%d" % (name, h["i"])
+        h.setdefault("method", "GET")
+        h.setdefault("async", False)
+    counter = [0]
 
     # ---- gen_app blueprint ops + Rust items ------------------------------------------------------
     def cid(tag, i):
@@ -164,7 +248,7 @@ def make(rng, name):
                 handlers[op[1]]["full_path"] = prefix + handlers[op[1]]["path"]
                 out.append(["route", op[1]] if op[2] is None else ["raw", "{bp}.route(%s).error_handler(%s_X%d);" % (cid("h", op[1]), U, op[2])])
             elif op[0] == "obs":
-                out.append(["observer", op[1]])
+                out.append(["raw", "{bp}.error_observer(%s_O%d);" % (U, op[1])])
             elif op[0] == "eh":
                 out.append(["raw", "{bp}.error_handler(%s_X%d);" % (U, op[1])])
             elif op[0] == "nest":
@@ -175,23 +259,32 @@ def make(rng, name):
 
     bp = to_ops(ebp, "")
     items_rs = []
+
+    def params_of(ins):
+        ps, ids = "", ""
+        for q, (j, mode) in enumerate(ins):
+            ps += ", a%d: %sT%d" % (q, {"ref": "&", "val": "", "mut": "&mut "}[mode], j)
+            ids += ", a%d.id" % q
+        return ps, " ".join("{}" for _ in ins), ids
     for e in ehs:
         t = e["target"]
         ety = "pavex::Error" if t == ["any"] else "E%s%d" % (t[0].upper(), t[1])
-        params = "".join(", a%d: &T%d" % (q, j) for q, (j, _) in enumerate(e["ins"]))
-        fmt = " ".join("{}" for _ in e["ins"])
-        ids = "".join(", a%d.id" % q for q in range(len(e["ins"])))
+        params, fmt, ids = params_of(e["ins"])
         items_rs.append(
             "#[pavex::error_handler(id = \"__MODU___X%d\", default = false)]\n"
             "pub fn x%d(#[px(error_ref)] e: &%s%s) -> Response { log(format!(\"eh __MOD__.x%d : %s\"%s)); "
             "Response::new(pavex::http::StatusCode::from_u16(%d).unwrap()) }" % (e["k"], e["k"], ety, params, e["k"], fmt, ids, e["status"]))
+    for o in observers:
+        params, fmt, ids = params_of(o["ins"])
+        items_rs.append("#[pavex::error_observer(id = \"__MODU___O%d\")]\n"
+                        "pub fn o%d(e: &pavex::Error%s) { log(format!(\"observer __MOD__.o%d : %s\"%s)); }" % (o["i"], o["i"], params, o["i"], fmt, ids))
     spec = {"name": name, "klass": "errors", "types": types, "ctors": ctors, "handlers": handlers, "mws": mws,
-            "observers": observers, "bp": bp, "usage": {}, "extra_items": items_rs,
+            "observers": [], "bp": bp, "usage": {}, "extra_items": items_rs, "mini": mini,
             "err": {"ctors": [{"i": c["i"], "life": c["life"], "ins": [x[0] for x in c["ins"]], "fallible": c["fallible"]} for c in ctors],
                     "handlers": [{"i": h["i"], "ins": [x[0] for x in h["ins"]], "fallible": h["fallible"]} for h in handlers],
                     "mws": [{"i": m["i"], "kind": m["kind"], "ins": [x[0] for x in m["ins"]], "fallible": m["fallible"]} for m in mws],
                     "ehs": [{"k": e["k"], "target": e["target"], "ins": [x[0] for x in e["ins"]], "status": e["status"]} for e in ehs],
-                    "observers": [{"i": o["i"], "ins": []} for o in observers],
+                    "observers": [{"i": o["i"], "ins": [x[0] for x in o["ins"]]} for o in observers],
                     "bp": ebp}}
     return spec
 
